@@ -517,6 +517,9 @@ def run(ctx) -> None:
     from ..nf import NF
     with ctx.as_rule(C06_R4="C01.R10"):
         r4_call(ctx, NF(ctx.program))
+    # (.. and a call node carries as many type arguments as the callee has type parameters: shared with C13.R1)
+    from .c13 import call_arity_rule
+    call_arity_rule(ctx, "C01.R10")
     ctx.rule("C01.R11", "insert_* of a built container: every node and every link (order links included) of the inserted HUGR is copied, the root under the requested parent (shared with C08.R1-R4): a dropped order edge leaves a non-local value edge without its mandatory order edge", floor=8)
     from .c08 import insert_core
     insert_core(ctx, R1="C01.R11", R2="C01.R11", R3="C01.R11", R4="C01.R11")
